@@ -17,7 +17,16 @@
                       guard of the _partial theorems, also the generator filter of the harness);
                       geo_guard (row/column in range only); touched (rows a call may write)
    fitsb g: 1 <= cols <= 40, 1 <= rows <= 4 and (rows <= 2 or cols <= 20) - the geometries
-   whose rows do not alias in the DDRAM of one HD44780 (C17_geometry_refuted for the others). *)
+   whose rows do not alias in the DDRAM of one HD44780 (C17_geometry_refuted for the others).
+
+   Repaired in Reduino (fix: commit, known_findings kind=fixed), models and theorems follow the
+   repaired code: message(bottom=..) on a one-row display (the emitter now guards the bottom
+   write with `rows > 1`, as the host does) and progress with width <= 0 / max_value <= 0
+   (__redu_lcd_progress now clamps width into 1..cols and draws an empty bar for
+   max_value <= 0, as the host does).  The former C17_message_one_row_refuted,
+   C17_progress_width_refuted, C17_progress_max_refuted are replaced by the universally
+   quantified statements they contradicted (C17_message_one_row, C17_progress_same_bar,
+   C17_progress_bar_within_one); the guards of the message / progress theorems are gone. *)
 From Coq Require Import ZArith QArith List Bool.
 From RV Require Import Base.LcdBase Host.LCD Device.DLCD Device.LCDRefine
   Proofs.LCDHostP Proofs.LCDDevP Proofs.LCDP Proofs.LCDTop Gen.LcdTables Proofs.LCDTablesP.
@@ -44,27 +53,36 @@ Theorem C17_line_refines : forall h d row text align clear,
 Proof. exact top_line_refines. Qed.
 Print Assumptions C17_line_refines.
 
-(* message: guard = no bottom text on a one-row display *)
-Theorem C17_message_refines_partial : forall h d top bottom ta ba clear,
+(* message: every top / bottom text on every display, also bottom on a one-row display
+   (both sides skip it) *)
+Theorem C17_message_refines : forall h d top bottom ta ba clear,
   fitsb (d_g d) = true -> shows h d -> opt_asciib top = true -> opt_asciib bottom = true ->
-  align_ok ta = true -> align_ok ba = true -> (bottom = None \/ 2 <= d_rows d) ->
+  align_ok ta = true -> align_ok ba = true ->
   exists h' d', hstep h (OMessage top bottom ta ba clear) = (h', HOk) /\
                 dstep d (OMessage top bottom ta ba clear) = Some d' /\ shows h' d'.
 Proof. exact top_message_refines. Qed.
-Print Assumptions C17_message_refines_partial.
+Print Assumptions C17_message_refines.
 
-(* outside that guard the two sides differ (F-C17-message-one-row) *)
-Theorem C17_message_one_row_refuted :
-  exists g op, fitsb g = true /\ g_rows g = 1 /\
-    (exists t b ta ba c, op = OMessage (Some t) (Some b) ta ba c /\ asciib t = true /\ asciib b = true /\
-                         align_ok ta = true /\ align_ok ba = true) /\
-    match hinit g with
-    | Some h0 => snd (hstep h0 op) = HOk /\ dstep (dinit g) op <> None /\
-                 cells (dstep' (dinit g) op) <> map (map canon) (h_buf (fst (hstep h0 op)))
-    | None => False
-    end.
-Proof. exact top_message_one_row_refuted. Qed.
-Print Assumptions C17_message_one_row_refuted.
+(* one-row display (formerly F-C17-message-one-row): in every state, with every argument,
+   both sides treat message(top, bottom) as message(top, None) *)
+Theorem C17_message_one_row_skips : forall h d top bottom ta ba clear,
+  (h_rows h <= 1 -> hstep h (OMessage top bottom ta ba clear) = hstep h (OMessage top None ta ba clear)) /\
+  (d_rows d <= 1 -> dstep d (OMessage top bottom ta ba clear) = dstep d (OMessage top None ta ba clear)).
+Proof. exact top_message_one_row_skips. Qed.
+Print Assumptions C17_message_one_row_skips.
+
+(* the statement the former C17_message_one_row_refuted contradicted: every one-row geometry,
+   every pair of ASCII texts, alignments, clear flag - the display shows the host buffer,
+   which holds top only *)
+Theorem C17_message_one_row : forall g h0 t b ta ba c,
+  fitsb g = true -> g_rows g = 1 -> hinit g = Some h0 ->
+  asciib t = true -> asciib b = true -> align_ok ta = true -> align_ok ba = true ->
+  let op := OMessage (Some t) (Some b) ta ba c in
+  snd (hstep h0 op) = HOk /\ dstep (dinit g) op <> None /\
+  cells (dstep' (dinit g) op) = map (map canon) (h_buf (fst (hstep h0 op))) /\
+  hstep h0 op = hstep h0 (OLine 0 t ta c).
+Proof. exact top_message_one_row. Qed.
+Print Assumptions C17_message_one_row.
 
 (* clear: whatever was shown before *)
 Theorem C17_clear_refines : forall h d,
@@ -74,26 +92,26 @@ Theorem C17_clear_refines : forall h d,
 Proof. exact top_clear_refines. Qed.
 Print Assumptions C17_clear_refines.
 
-(* progress: the rendered rows coincide whenever the two filled lengths do
-   (guard: max_value > 0, width None or >= 1) *)
+(* progress, every value, max_value (also <= 0) and width (None, <= 0, 1..cols, > cols): the
+   rendered rows coincide whenever the two filled lengths do (the statement lets them differ
+   by one cell otherwise: C17_progress_within_one) *)
 Theorem C17_progress_refines_partial : forall h d row value maxv width style label,
   fitsb (d_g d) = true -> shows h d -> 0 <= row < d_rows d -> style_ok style = true -> ascii label ->
-  0 < maxv -> width_in width = true ->
   hfilled value maxv (hwidth (d_cols d) width) = dfilled value maxv (dwidth (d_cols d) width) ->
   exists h' d', hstep h (OProgress row value maxv width style label) = (h', HOk) /\
                 dstep d (OProgress row value maxv width style label) = Some d' /\ shows h' d'.
 Proof. exact top_progress_refines. Qed.
 Print Assumptions C17_progress_refines_partial.
 
-(* ... in particular whenever value*width is a multiple of max_value *)
-Theorem C17_progress_refines_exact_partial : forall h d row value maxv width style label,
+(* ... in particular whenever value*width is a multiple of max_value, whatever max_value and
+   the width argument are *)
+Theorem C17_progress_refines_exact : forall h d row value maxv width style label,
   fitsb (d_g d) = true -> shows h d -> 0 <= row < d_rows d -> style_ok style = true -> ascii label ->
-  0 < maxv -> width_in width = true ->
   (maxv | value * hwidth (d_cols d) width) ->
   exists h' d', hstep h (OProgress row value maxv width style label) = (h', HOk) /\
                 dstep d (OProgress row value maxv width style label) = Some d' /\ shows h' d'.
 Proof. exact top_progress_refines_exact. Qed.
-Print Assumptions C17_progress_refines_exact_partial.
+Print Assumptions C17_progress_refines_exact.
 
 (* the declaration code leaves both sides blank, backlight on at 255, no glyphs *)
 Theorem C17_init_agrees : forall g h0, fitsb g = true -> hinit g = Some h0 -> agrees h0 (dinit g).
@@ -215,46 +233,49 @@ Proof. exact host_shape. Qed.
 Print Assumptions C17_host_shape.
 
 (* ===================================================== progress bar arithmetic *)
-(* w = total bar width; guard: max_value > 0, w >= 1 *)
+(* w = total bar width, always within 1..cols (C17_progress_width_agree); every max_value *)
 
-Theorem C17_progress_monotone : forall v1 v2 m w, 0 < m -> 1 <= w -> v1 <= v2 ->
+Theorem C17_progress_monotone : forall v1 v2 m w, 1 <= w -> v1 <= v2 ->
   hfilled v1 m w <= hfilled v2 m w /\ dfilled v1 m w <= dfilled v2 m w.
 Proof. exact progress_monotone. Qed.
 Print Assumptions C17_progress_monotone.
 
-Theorem C17_progress_saturates : forall v m w, 0 < m -> 1 <= w ->
+(* saturates at 0 (value <= 0; every value when max_value <= 0) and at the bar width *)
+Theorem C17_progress_saturates : forall v m w, 1 <= w ->
   0 <= hfilled v m w <= w /\ 0 <= dfilled v m w <= w /\
-  (v <= 0 -> hfilled v m w = 0 /\ dfilled v m w = 0) /\
-  (m <= v -> hfilled v m w = w /\ dfilled v m w = w).
+  (v <= 0 \/ m <= 0 -> hfilled v m w = 0 /\ dfilled v m w = 0) /\
+  (0 < m <= v -> hfilled v m w = w /\ dfilled v m w = w).
 Proof. exact progress_saturates. Qed.
 Print Assumptions C17_progress_saturates.
 
-Theorem C17_progress_exact : forall v m w, 0 < m -> 1 <= w -> (m | v * w) -> hfilled v m w = dfilled v m w.
+Theorem C17_progress_exact : forall v m w, 1 <= w -> (m | v * w) -> hfilled v m w = dfilled v m w.
 Proof. exact progress_exact. Qed.
 Print Assumptions C17_progress_exact.
 
-Theorem C17_progress_within_one : forall v m w, 0 < m -> 1 <= w -> 0 <= hfilled v m w - dfilled v m w <= 1.
+Theorem C17_progress_within_one : forall v m w, 1 <= w -> 0 <= hfilled v m w - dfilled v m w <= 1.
 Proof. exact progress_within_one. Qed.
 Print Assumptions C17_progress_within_one.
 
-(* both sides use the same bar width when width is None or >= 1 *)
-Theorem C17_progress_width_agree : forall cols width, 1 <= cols -> width_in width = true ->
+(* both sides use the same bar width for every width argument: None, <= 0 (one cell),
+   1..cols, > cols (the whole row) *)
+Theorem C17_progress_width_agree : forall cols width, 1 <= cols ->
   dwidth cols width = hwidth cols width /\ 1 <= hwidth cols width <= cols.
 Proof. exact width_agree. Qed.
 Print Assumptions C17_progress_width_agree.
 
-(* width <= 0 (F-C17-progress-width) and max_value <= 0 (F-C17-progress-max) *)
-Theorem C17_progress_width_refuted :
-  exists cols value maxv w, 1 <= cols <= 40 /\ 0 < maxv /\ w <= 0 /\ (maxv | value * w) /\
-    1 < bar_gap cols value maxv (Some w).
-Proof. exact top_progress_width_refuted. Qed.
-Print Assumptions C17_progress_width_refuted.
+(* the statements the former C17_progress_width_refuted / C17_progress_max_refuted
+   contradicted (bar_gap = |host filled - firmware filled| with each side's own width
+   normalisation): for every width argument and every max_value the two bars are identical
+   whenever value*width is a multiple of max_value, and never more than one cell apart *)
+Theorem C17_progress_same_bar : forall cols value maxv width, 1 <= cols ->
+  (maxv | value * hwidth cols width) -> bar_gap cols value maxv width = 0.
+Proof. exact top_progress_same_bar. Qed.
+Print Assumptions C17_progress_same_bar.
 
-Theorem C17_progress_max_refuted :
-  exists cols value maxv, 1 <= cols <= 40 /\ maxv <= 0 /\ (maxv | value * cols) /\
-    1 < bar_gap cols value maxv None.
-Proof. exact top_progress_max_refuted. Qed.
-Print Assumptions C17_progress_max_refuted.
+Theorem C17_progress_bar_within_one : forall cols value maxv width, 1 <= cols ->
+  bar_gap cols value maxv width <= 1.
+Proof. exact top_progress_bar_within_one. Qed.
+Print Assumptions C17_progress_bar_within_one.
 
 (* ===================================================== backlight *)
 
@@ -351,3 +372,17 @@ Print Assumptions C17_ex_effect.
 Example C17_ex_progress : hfilled 1 2 3 = 2 /\ dfilled 1 2 3 = 1 /\ hfilled 1 3 15 = 5 /\ dfilled 1 3 15 = 5.
 Proof. vm_compute. repeat split. Qed.
 Print Assumptions C17_ex_progress.
+
+(* the witnesses of the three repaired findings, now inside the guard and in agreement:
+   message("A", "B") on a 4x1 display shows "A   " on both sides; progress(0, 100, 100, width=0)
+   on 16 columns is one filled cell on both sides; progress(0, 5, -1) is an empty bar on both *)
+Definition ex_g41 : geom := {| g_cols := 4; g_rows := 1; g_i2c := false; g_blpin := None |}.
+Example C17_ex_repaired :
+  op_guard ex_g41 (OMessage (Some [65]) (Some [66]) 0 0 true) = true /\
+  cells (dstep' (dinit ex_g41) (OMessage (Some [65]) (Some [66]) 0 0 true)) = [[65; 32; 32; 32]] /\
+  op_guard ex_g (OProgress 0 100 100 (Some 0) 1 []) = true /\
+  hfilled 100 100 (hwidth 16 (Some 0)) = 1 /\ dfilled 100 100 (dwidth 16 (Some 0)) = 1 /\
+  op_guard ex_g (OProgress 0 5 (-1) None 1 []) = true /\
+  hfilled 5 (-1) (hwidth 16 None) = 0 /\ dfilled 5 (-1) (dwidth 16 None) = 0.
+Proof. vm_compute. repeat split. Qed.
+Print Assumptions C17_ex_repaired.
